@@ -113,31 +113,38 @@ struct SimWorld {
     budget: u64,
 }
 
-fn kind_of(s: &str) -> io::ErrorKind {
+/// The error a real socket / file call would return: kinds that come from the kernel carry their
+/// errno (as `std` builds them), synthetic kinds and name-lookup failures carry none.
+fn error_of(s: &str) -> io::Error {
     use io::ErrorKind::*;
+    let os = |code: i32| io::Error::from_raw_os_error(code);
     match s {
-        "ConnectionRefused" => ConnectionRefused,
-        "ConnectionReset" => ConnectionReset,
-        "ConnectionAborted" => ConnectionAborted,
-        "NotConnected" => NotConnected,
-        "TimedOut" => TimedOut,
-        "BrokenPipe" => BrokenPipe,
-        "Interrupted" => Interrupted,
-        "WouldBlock" => WouldBlock,
-        "UnexpectedEof" => UnexpectedEof,
-        "NotFound" => NotFound,
-        "PermissionDenied" => PermissionDenied,
-        "InvalidData" => InvalidData,
-        "AddrNotAvailable" => AddrNotAvailable,
-        "HostUnreachable" => HostUnreachable,
-        "NetworkUnreachable" => NetworkUnreachable,
-        "InvalidInput" => InvalidInput,
-        "Unsupported" => Unsupported,
-        "OutOfMemory" => OutOfMemory,
-        "AddrInUse" => AddrInUse,
-        "ConnectionRefusedLate" => ConnectionRefused,
-        _ => Other,
+        "ConnectionRefused" => os(111),
+        "ConnectionReset" => os(104),
+        "ConnectionAborted" => os(103),
+        "NotConnected" => os(107),
+        "TimedOut" => os(110),
+        "BrokenPipe" => os(32),
+        "Interrupted" => os(4),
+        "WouldBlock" => os(11),
+        "NotFound" => os(2),
+        "PermissionDenied" => os(13),
+        "AddrNotAvailable" => os(99),
+        "AddrInUse" => os(98),
+        "HostUnreachable" => os(113),
+        "NetworkUnreachable" => os(101),
+        "InvalidInput" => os(22),
+        "OutOfMemory" => os(12),
+        "UnexpectedEof" => io::Error::new(UnexpectedEof, "simulated: unexpected end of file"),
+        "InvalidData" => io::Error::new(InvalidData, "simulated: invalid data"),
+        "Unsupported" => io::Error::new(Unsupported, "simulated: unsupported"),
+        "LookupFailed" => io::Error::new(Other, "failed to lookup address information: Temporary failure in name resolution"),
+        _ => io::Error::new(Other, "simulated: other error"),
     }
+}
+
+fn kind_of(s: &str) -> io::ErrorKind {
+    error_of(s).kind()
 }
 
 pub fn snapshot_of(table: &Table) -> Snapshot {
@@ -212,7 +219,7 @@ impl World for SimWorld {
                 let mut tr = self.trace.lock().unwrap();
                 tr.seam.push(SeamEv::Connect { t_us: t, conn: idx, ok: false });
                 tr.consumed_ops += 1;
-                Err(kind_of(kind).into())
+                Err(error_of(kind))
             }
             Conn::Accept { .. } => {
                 self.trace.lock().unwrap().seam.push(SeamEv::Connect { t_us: t, conn: idx, ok: true });
@@ -237,7 +244,7 @@ impl World for SimWorld {
             }
             Some(Conn::Refuse { kind }) => {
                 self.trace.lock().unwrap().seam.push(SeamEv::Open { t_us: t, ok: false });
-                Err(kind_of(kind).into())
+                Err(error_of(kind))
             }
             None => Err(io::ErrorKind::NotFound.into()),
         }
@@ -313,14 +320,14 @@ impl World for SimWorld {
                     let k = kind_of(&kind);
                     if k == io::ErrorKind::Interrupted {
                         // transparent to BufRead (retried); no step
-                        return Err(k.into());
+                        return Err(error_of(&kind));
                     }
-                    let mut st = self.new_step(conn, op_idx, StepKind::Err(kind.clone()), kind);
+                    let mut st = self.new_step(conn, op_idx, StepKind::Err(kind.clone()), kind.clone());
                     if !self.pending.is_empty() {
                         st.dropped_partial = Some(std::mem::take(&mut self.pending));
                     }
                     self.open_step = Some(st);
-                    return Err(k.into());
+                    return Err(error_of(&kind));
                 }
                 Op::Eof { .. } => {
                     let mut st = self.new_step(conn, op_idx, StepKind::Eof, "eof".into());
